@@ -7,11 +7,27 @@ QUEUE_RULE = ("queue: seeded random Push/Pop histories (2..40 ops + drain) over 
               "name once (proved domain), 1/4 re-push pending names (finding domain); every Pop of the real queue is compared with the model and judged by "
               "the oracles on the agreed pre-state; non-trivial = >=2 groups served or >=4 chunks; distinct = distinct input lines")
 
+
+STAGE_RULE = ("stage: seeded operation sequences against a real Stage on a temp directory with the real log.FileIO: 1..4 files (1..24 bytes, nested names, renames, "
+              "predecessor chains; profiles: plain protocol, new versions of a name, corruption (flipped bytes, short/failing readers, wrong announced hash, "
+              "overwritten staged bodies), cleaning with aged partials, cycles / self / never-arriving predecessors), parts in 1..4 slices in order or shuffled, "
+              "duplicates and late retransmissions, requests of 1..3 parts (Prepare then Receive), status / received / partials queries, CleanNow, restarts "
+              "(Stop+New+Recover) at quiescence; after every completing Receive the driver waits for quiescence; snapshots (stage listing with MD5, companions, "
+              "final directory with MD5, log records) and every return value are compared with the model; plus the corpus of finding witnesses; "
+              "non-trivial = something was staged or delivered; distinct = distinct input lines")
+STAGE_NOTE = ("Trusted: Coq kernel (no axioms; MD5 is a Section variable, collision-freeness an explicit premise where used), extraction, OCaml/Go harness "
+              "(OCaml Digest = MD5 passed as the hash argument). Modelled by hand: stage/local.go and companion.go as a sequential state machine with an object "
+              "heap (cache, wait lists, channels hold object ids) and an explicit settle function for the validator/finalize goroutines. Not modelled: real "
+              "goroutine interleavings (explored by the concurrent suite), narrowing log-search windows and the 10 s retry timer of isFileReady (the model "
+              "looks at the whole log), cleanCache ageing, exporter/dispatcher, power-loss durability.")
+STAGE_SUITE = dict(name="stage", pkg="./stage/", test="TestVerifStage", min_lines=200, timeout_quick=900)
+
 PROPS = {
     "C09": dict(
         coq="Properties/C09.v",
         suites=[
             dict(name="ranges", pkg="./stage/", test="TestVerifRanges", min_lines=1000),
+            dict(STAGE_SUITE, oracles=["companion_claims_unwritten"], diffs=["companions", "received", "scan", "receive"]),
         ],
         rule=("ranges: every history of <=3 (thorough: <=4) ranges over the grid 0..5 (0..6) with every query range, "
               "plus seeded random histories of <=12 parts at scales 16..2^62 shaped as tilings with identical "
@@ -111,5 +127,55 @@ PROPS = {
         technique="Coq proof (split/join, prefix exactness, day-walk induction) + extracted-model differential testing of the real log code",
         assumptions=["TZ=UTC; local-time DST days (23/25 h) not modelled", "times are whole seconds; zero time.Time arguments not generated",
                      "writers are serialised by the logger goroutine (explored by concurrent runs)"],
+    ),
+    "C01": dict(
+        coq="Properties/C01.v",
+        suites=[dict(STAGE_SUITE, oracles=["delivered_content_not_validated"],
+                     diffs=["finals", "log", "stage-files", "status", "receive"])],
+        rule=STAGE_RULE,
+        level_text=("Proof: invariant over ALL receiver histories (any part order/grouping, duplicates, corruption in transit, overwritten partials, queries, "
+                    "cleaning, timers, restarts at quiescence) in which each name is announced with one hash: every file in the final directory hashes to the "
+                    "announced hash of its name and that hash is in its log record (C01_delivered_valid_on_D, byte-identity under collision-freeness); "
+                    "unconditional step theorems: validation checks the hash, a mismatch is reported failed and delivers nothing; refuted outside D with the "
+                    "stale-waiter witness (known finding). Tied to the code by the operation-sequence differential run of the real Stage."),
+        level_note=STAGE_NOTE,
+        technique="Coq proof (5-clause invariant preserved by all 11 operations incl. settle/recover, induction over histories) + operation-sequence differential testing",
+        assumptions=["restarts happen at quiescence in this suite (crash points between durable steps: C06)",
+                     "md5 collision-freeness is a premise of the byte-identity corollary only"],
+    ),
+    "C04": dict(
+        coq="Properties/C04.v",
+        suites=[dict(STAGE_SUITE, oracles=["delivered_before_predecessor"], diffs=["finals", "log", "status"])],
+        rule=STAGE_RULE,
+        level_text=("Proof (step level): the finalize handler logs/delivers a file only if its predecessor reference is empty, itself, found in the log, or "
+                    "known delivered; otherwise the validated file is parked (held_is_waiting); delivery is one log record then the move. The history-level "
+                    "ordering of the receive log is evaluated as an oracle on every implementation trace (cycles cleared by the cleaner exempt); end-to-end "
+                    "composition with C10 is argued in DESIGN, not yet a theorem."),
+        level_note=STAGE_NOTE,
+        technique="Coq proof (step theorems on the finalize handler) + operation-sequence differential testing + log-order oracle",
+        assumptions=["predecessor identity is the name; log look-ups are modelled over the whole log"],
+    ),
+    "C05": dict(
+        coq="Properties/C05.v",
+        suites=[dict(STAGE_SUITE, oracles=["logged_twice"], diffs=["finals", "log", "received", "status", "stage-files"])],
+        rule=STAGE_RULE,
+        level_text=("Proof (step level): a finalisation appends at most one record and changes the final directory only together with it. The history-level "
+                    "'exactly once' statement is evaluated as an oracle on every trace (no (name,hash) logged twice); it is refuted by the faithful model when a "
+                    "failed other version of the name replaced the in-memory record of a delivery (known finding C05-F1)."),
+        level_note=STAGE_NOTE,
+        technique="Coq proof (step theorem) + operation-sequence differential testing + once-only oracle",
+        assumptions=["cache ageing (cleanCache) is not exercised in the quick tier"],
+    ),
+    "C20": dict(
+        coq="Properties/C20.v",
+        suites=[dict(STAGE_SUITE, oracles=["clean_removed_undelivered_partial", "clean_removed_undelivered_companion", "clean_removed_validated_data"],
+                     diffs=["stage-files", "companions"])],
+        rule=STAGE_RULE,
+        level_text=("Proof: cleanStrays (after fix d299eeb) never touches .full/.wait bodies, delivered files, log or cache, only removes partials/companions, "
+                    "and removes a partial only when it is old AND the cache knows the file beyond 'received' with the companion's hash (or no companion) or "
+                    "the log has a record of that name and hash. Tied to the code by the differential run with aged partials and CleanNow at random points."),
+        level_note=STAGE_NOTE,
+        technique="Coq proof (case analysis of clean_stray) + operation-sequence differential testing + removal oracle",
+        assumptions=["Prune (empty-directory removal) is exercised in the thorough tier only", "file ages are set with Chtimes"],
     ),
 }
